@@ -147,6 +147,8 @@ def cmd_coq(c):
         return "CFail"
     if k == "compabort":
         return "CFail"      # a comprehension whose variable has the name of a session definition, aborted by an error: no effect, the error
+    if k == "fnassignd":
+        return "CAssign %s %s" % (zl(c[1]), zl(c[2]))      # a destructuring assignment made inside a call updates the session variable like a plain one
     if k == "callabort":
         return "CFail"      # a function (with and without parameters, named and anonymous) that defines a local with the name of a session definition, then fails
     if k == "loopshadow":
@@ -185,6 +187,11 @@ def cmd_src(c):
                  "[if %s == 4 then error 'boom' else %s for zq in [1, 2] also for %s in [3, 4]]", "<<if %s == 4 then error 'boom' else %s for zq in [1] for %s in [3, 4]>>",
                  "[if %s == 4 then error 'boom' else %s for %s in [3, 4] for zq in [1]]"]
         return forms[c[2] % len(forms)] % (v, v, v)
+    if k == "fnassignd":
+        forms = ["(fn() do [%s] = [%d] end)()", "(fn(zq) do [%s] = [zq] end)(%d)", "(fn() do [%s, %s] = [%d, %d]; %s end)()"]
+        f = forms[c[2] % len(forms)]
+        v = vname(c[1])
+        return f % ((v, c[2]) if f.count("%") == 2 else (v, v, c[2], c[2], v))
     if k == "callabort":
         v = vname(c[1])
         forms = ["(fn() do def %s = 41; %s += 1; error 'boom' end)()", "(fn(zq) do def %s = zq; %s += 1; error 'boom' end)(41)",
